@@ -1,2 +1,48 @@
-# property table (exec'd by bin/check): profiles x variants, budgets, non-triviality rules
+# property table (exec'd by bin/check): profiles x variants, budgets, non-triviality rules.
+# mix entries: (profile, variant, share).  nontrivial: list of alternatives, each a list of "probe" or "probe>=N" terms.
 prop("DEV", mix=[("base", "default", 1.0)], quick_s=20, claims_all=True, rule="dev profile", nontrivial=[])
+
+prop("C01",
+     mix=[("c01", "default", 3), ("c01", "small", 2), ("c01", "batch1", 1), ("base", "default", 1)],
+     quick_mix=[("c01", "default", 2), ("c01", "small", 1)],
+     quick_s=25, thorough_s=600,
+     rule="seeded plans of add/remove/change/fetch/unfetch/connect/disconnect by 2-6 peers on raw, unix and WebSocket transports, random segmentation and event batching; "
+          "every frame is matched against the reference model and per-fetch replicas are compared at every quiescent point. non-trivial: at least one fetch received a notification; distinct by trace hash",
+     nontrivial=[["notify_add"]],
+     required_probes=["add_then_fetch", "notify_change", "notify_remove", "unfetch_with_live_elements", "owner_disconnect_with_subscribers", "multi_message_read"])
+
+prop("C03",
+     mix=[("c03", "default", 3), ("c03", "small", 2), ("c03", "batch1", 1)],
+     quick_mix=[("c03", "default", 2), ("c03", "small", 1)],
+     quick_s=25, thorough_s=600,
+     rule="seeded plans of set/call by several callers to several owners with reply policies (result, error, late, never, duplicate, forged), bystander churn and deadline crossings; "
+          "non-trivial: at least one routed request reached a final outcome (owner answer, timeout, owner gone); distinct by trace hash",
+     nontrivial=[["owner_replied"], ["timed_out"], ["owner_left_with_inflight"]],
+     required_probes=["owner_replied", "timed_out", "owner_left_with_inflight", "caller_left_with_inflight", "duplicate_reply", "forged_reply", "reply_unknown_or_late", "self_routed"])
+
+prop("C04",
+     mix=[("c04", "default", 3), ("c04", "small", 2)],
+     quick_mix=[("c04", "default", 2), ("c04", "small", 1)],
+     quick_s=25, thorough_s=600,
+     rule="seeded sequences of add/remove/change/set/call/get by several peers over a small adversarial path universe, compared after every step with a reference map through responses, "
+          "an observer's fetch-all replica and get results; non-trivial: >=3 notifications and >=1 refused request; distinct by trace hash",
+     nontrivial=[["notify_add>=3", "add_existing_path"], ["notify_add>=3", "change_not_owner"], ["notify_add>=3", "remove_not_owner"], ["notify_add>=3", "setcall_wrong_kind"], ["notify_add>=3", "set_on_fetchonly"]],
+     required_probes=["add_existing_path", "change_not_owner", "remove_not_owner", "change_on_method", "setcall_wrong_kind", "set_on_fetchonly", "empty_path", "get"])
+
+prop("C05",
+     mix=[("c05", "default", 3), ("c05", "small", 1), ("c05", "batch1", 1)],
+     quick_mix=[("c05", "default", 1)],
+     quick_s=25, thorough_s=600, opts={"memprop": "C05"},
+     rule="seeded plans that bring a peer into a protocol state (owner with subscribers, fetcher, owner or caller of requests in flight, mid-message) and end its connection by FIN, reset, hang-up or a "
+          "protocol violation at a drawn byte; model consequences for everyone else plus descriptor-table and poisoned-arena checks; non-trivial: the ended peer had state others depend on; distinct by trace hash",
+     nontrivial=[["owner_disconnect_with_subscribers"], ["peer_left_with_fetches"], ["owner_left_with_inflight"], ["caller_left_with_inflight"]],
+     required_probes=["owner_disconnect_with_subscribers", "peer_left_with_fetches", "owner_left_with_inflight", "caller_left_with_inflight", "gone_by_error_event", "client_close:fin", "client_close:rst", "client_close:hup", "message_drops_connection", "truncated_send"])
+
+prop("C14",
+     mix=[("c14", "default", 3), ("c14", "batch1", 1), ("c14", "small", 2)],
+     quick_mix=[("c14", "default", 2), ("c14", "small", 1)],
+     quick_s=25, thorough_s=600, opts={"memprop": "C14"},
+     rule="seeded plans of routed requests with request/element/default timeouts (valid, too small, non-numeric), owners answering before, at and after the deadline or never, and event batching that "
+          "harvests reply, expiry and disconnects together on a virtual clock; non-trivial: a timer was armed and the request was resolved by reply or expiry; distinct by trace hash",
+     nontrivial=[["timer_armed", "timed_out"], ["timer_armed", "owner_replied"]],
+     required_probes=["timed_out", "owner_replied", "timer_and_io_same_batch", "timer_and_disconnect_same_batch", "timeout_precedence:request", "timeout_precedence:element", "timeout_precedence:default", "timeout_refused", "expiry_after_resolution"])
